@@ -22,6 +22,8 @@ pub struct Check {
     pub rule: &'static str,
     /// true for complete enumerations (not split across shards)
     pub exhaustive: bool,
+    /// complete enumeration: run exactly these requests, in order, without proptest
+    pub enumerate: Option<Vec<Req>>,
 }
 
 #[derive(Default)]
@@ -42,7 +44,42 @@ pub struct Outcome {
     pub wall_s: f64,
 }
 
-pub fn run_check(chk: Check, seed: u64, config_name: &str) -> Outcome {
+fn run_enumeration(chk: Check, items: Vec<Req>, seed: u64, config_name: &str) -> Outcome {
+    let t0 = std::time::Instant::now();
+    let mut st = Stats::default();
+    let mut violation = None;
+    for req in items.iter() {
+        let resp = (chk.exec)(req);
+        st.evaluations += 1;
+        let labels = (chk.classify)(req, &resp);
+        if labels.is_empty() {
+            *st.classes.entry("plain".into()).or_insert(0) += 1;
+        } else {
+            st.nontrivial.insert(req.key());
+            for l in &labels {
+                *st.classes.entry(l.to_string()).or_insert(0) += 1;
+            }
+        }
+        let key = format!("{}:{}", req.op, labels.join("+"));
+        if st.samples.len() < 12 && !st.sample_classes.contains(&key) {
+            st.sample_classes.insert(key.clone());
+            st.samples.push(json!({"check": chk.name, "classes": key, "req": req.to_json(), "resp": resp.short()}));
+        }
+        if let Err(m) = (chk.oracle)(req, &resp) {
+            violation = Some(json!({
+                "check": chk.name, "config": config_name, "seed": seed,
+                "req": req.to_json(), "got": resp.to_json(), "message": m,
+            }));
+            break;
+        }
+    }
+    Outcome { name: chk.name, stats: st, rule: chk.rule.to_string(), violation, wall_s: t0.elapsed().as_secs_f64() }
+}
+
+pub fn run_check(mut chk: Check, seed: u64, config_name: &str) -> Outcome {
+    if let Some(items) = chk.enumerate.take() {
+        return run_enumeration(chk, items, seed, config_name);
+    }
     let t0 = std::time::Instant::now();
     let stats = RefCell::new(Stats::default());
     let sub_seed = seed ^ crate::util::fnv(chk.name.as_bytes());
